@@ -30,11 +30,11 @@ PROP = {
             "files": ["payments/db/c16_test.go"],
             "shards": {"quick": 8, "thorough": 16},
             "watchdog": {"quick": 600, "thorough": 5400},
-            "floors": {"quick": {"cases": 2000, "ops": 40000, "admitted": 3000, "eval_model_projection": 40000,
+            "floors": {"quick": {"cases": 2000, "ops": 40000, "admitted": 3000, "admitted_completing": 800, "cases_reached_succeeded": 500, "eval_model_projection": 40000,
                                  "eval_kv_sql_outcome": 40000, "eval_status_invariants": 40000,
                                  "nontrivial_cases": 500},
-                       "thorough": {"cases": 150000, "ops": 3000000, "admitted": 200000,
-                                    "nontrivial_cases": 40000}},
+                       "thorough": {"cases": 150000, "ops": 3000000, "admitted": 200000, "admitted_completing": 50000,
+                                    "cases_reached_succeeded": 30000, "nontrivial_cases": 40000}},
         },
         {
             "name": "dupid", "pkg": "payments/db", "pkgname": "paymentsdb", "test": "TestVerifC16DupID",
@@ -43,6 +43,18 @@ PROP = {
             "watchdog": {"quick": 600, "thorough": 3600},
             "floors": {"quick": {"cases": 200, "eval_dup_kv_sql": 600},
                        "thorough": {"cases": 7000}},
+        },
+        {
+            "name": "tower", "pkg": "routing", "pkgname": "routing", "test": "TestVerifC16CT",
+            "files": ["routing/c16ct_test.go"],
+            "porcupine": True,
+            "race": {"quick": False, "thorough": True},
+            "gomaxprocs": 4,
+            "shards": {"quick": 8, "thorough": 16},
+            "watchdog": {"quick": 600, "thorough": 5400},
+            "floors": {"quick": {"histories": 1400, "lin_ok": 1300, "histories_with_overlap": 700,
+                                 "eval_conc_invariants": 500},
+                       "thorough": {"histories": 20000, "lin_ok": 19000, "histories_with_overlap": 10000}},
         },
     ],
 }
